@@ -136,6 +136,13 @@ TEMPLATES = [
     ("dec_ncall", 0, "@A().v\ndef d{n}():\n  pass"),
     ("dec_cls", 0, "@nope\nclass K{n}:\n  pass"),
     ("dec_param", 0, "@ident\ndef d{n}(a: int = 's'):\n  pass"),
+    # errors of one class on a decorator line and on the def / signature line (and on two decorators)
+    ("dec_two_wat", 0, "@fi('s')\n@ident\ndef d{n}(a=fi('t')):\n  pass"),
+    ("dec_two_name", 0, "@nope\n@ident\ndef d{n}(a=nope2):\n  pass"),
+    ("dec_mid_def", 0, "@ident\n@fi('s')\ndef d{n}(a: int = 's', b=fi('t')):\n  pass"),
+    ("dec_both_decos", 0, "@fi('s')\n@fi('t')\ndef d{n}():\n  pass"),
+    ("dec_cls_two", 0, "@nope\nclass K{n}(nope2):\n  pass"),
+    ("dec_sig_ml", 0, "@fi('s')\ndef d{n}(a,\n    b=fi('t')):\n  pass"),
     ("dec_static", 0, "class K{n}:\n  @staticmethod\n  def s() -> int:\n    return 's'\n  @property\n  def p(self) -> int:\n    return A().nope"),
     # --- multi-line def / return / annotated assignment / compound headers
     ("def_ml_param", 1, "def r{n}(a,\n    b: int = 's'):\n  pass"),
